@@ -71,6 +71,17 @@ def gen_coop():
         # reconnect ticker of NewReportedProviders
         'reported_providers.go': [('for range ticker.C {', 'for time.WaitTick(ticker.C) {')],
     }
+    # `go` statements (after gorewrite) whose body only calls the metrics manager (nil -> lava's NoOpConsumerMetrics
+    # in the harnesses) or the optimizer's Append* feedback (a no-op in the harness stub): run at the spawn point
+    # (coop.GoInline) instead of becoming scheduler threads. (text, expected count)
+    inline_go = {
+        'consumer_session_manager.go': [
+            ('coop.Go(func() { csm.consumerMetricsManager.', 2),
+            ('coop.Go(func() { csm.providerOptimizer.Append', 2),
+            ('coop.Go(func() { func(networkAddress string, chainId string, apiInterface string, providerAddress string) {\n\t\t\t\t\tcsm.consumerMetricsManager.SetBlockedProvider(', 2),
+            ('coop.Go(func() { func() {\n\t\tcsm.consumerMetricsManager.SetQOSMetrics(', 1),
+        ],
+    }
     for pkg in pkgs + extra_files:
         if pkg.endswith('.go'):
             files = [os.path.join(REPO, pkg)]
@@ -94,6 +105,11 @@ def gen_coop():
                 new = new.replace(old, rep)
                 open(dst, 'w').write(new)
                 n += 1
+            for (old, cnt) in inline_go.get(os.path.basename(f), []):
+                if new.count(old) != cnt:
+                    die('inline-go anchor %r found %d times (expected %d) in %s' % (old, new.count(old), cnt, f))
+                new = new.replace(old, 'coop.GoInline(' + old[len('coop.Go('):])
+                open(dst, 'w').write(new)
             if n or gon:
                 replace[f] = dst
                 total += n
